@@ -23,7 +23,7 @@ import cligen
 import l2
 import lib
 
-PAR = 6
+PAR = 4
 SUBS = ["new", "enum", "rest", "map"]
 COQ_SUB = {"new": "CNew", "enum": "CEnum", "rest": "CRest", "map": "CMap"}
 MARKER = {"new": "ShootNew", "enum": "ShootEnum", "rest": "ShootRest", "map": "ShootMap"}
@@ -58,8 +58,10 @@ def classify_diag(line):
 
 # ------------------------------------------------------------------- cases
 class Case:
-    def __init__(self, pkg, cmd, args, from_parent=None, tag=""):
+    def __init__(self, pkg, cmd, args, from_parent=None, tag="", pre=None):
         self.pkg, self.cmd, self.args, self.from_parent, self.tag = pkg, cmd, list(args), from_parent, tag
+        self.pre = pre              # [subcommand, args...] run first in p/: its outputs become files of the package
+        self.pkg0 = None            # the skeleton before the pre-step added the generated files
         self.obs = None
         self.dir = None
 
@@ -70,16 +72,18 @@ class Case:
         return "shoot " + " ".join(self.argv())
 
     def key(self):
-        h = hashlib.sha1(json.dumps([cligen.pkg_to_json(self.pkg), self.cmd, self.args], sort_keys=True).encode())
+        h = hashlib.sha1(json.dumps([cligen.pkg_to_json(self.pkg0 or self.pkg), self.cmd, self.args, self.pre],
+                                    sort_keys=True).encode())
         return h.hexdigest()
 
     def to_json(self):
-        return {"pkg": cligen.pkg_to_json(self.pkg), "cmd": self.cmd, "args": self.args,
-                "from_parent": self.from_parent, "tag": self.tag}
+        return {"pkg": cligen.pkg_to_json(self.pkg0 or self.pkg), "cmd": self.cmd, "args": self.args,
+                "from_parent": self.from_parent, "tag": self.tag, "pre": self.pre}
 
     @staticmethod
     def from_json(j):
-        return Case(cligen.pkg_from_json(j["pkg"]), j["cmd"], j["args"], j.get("from_parent"), j.get("tag", ""))
+        return Case(cligen.pkg_from_json(j["pkg"]), j["cmd"], j["args"], j.get("from_parent"), j.get("tag", ""),
+                    j.get("pre"))
 
 
 def extra_flags(rng, cmd, heavy=False):
@@ -112,7 +116,7 @@ def pick_names(rng, cmd, p):
         out.insert(rng.randint(0, len(out)), rng.choice(everything))
     elif r < 0.95:
         out = rng.sample(good, min(n - 1, len(good))) if good else []
-        out.insert(rng.randint(0, len(out)), rng.choice(["Nope", "nope", "Missing", "T", "_none"]))
+        out.insert(rng.randint(0, len(out)), rng.choice(["Nope", "nope", "Missing", "T", "_none", "InTest", "SubT", "Ignored"]))
     else:
         out = [rng.choice(everything)] if everything else ["Nope"]
         if rng.random() < 0.3:
@@ -151,6 +155,8 @@ def gen_cmdlines(rng, cmd, p):
 
     # --- -file=f
     f = rng.choice(p.files).name
+    if p.others and rng.random() < 0.4:
+        f = rng.choice(p.others)[0]          # exists, but is not a file of the package
     args = xf() + ["-file=" + f]
     r = rng.random()
     if r < 0.35:
@@ -226,6 +232,18 @@ def gen_cases(run, nskel):
                 if plan is not None:
                     apply_generate_plan(rng, p, cmd, args, plan, from_parent)
                 cases.append(Case(p, cmd, args + ([from_parent] if from_parent else []), from_parent, tag))
+        # a package that already holds shoot output: `shoot rest -file=f` first, then new / map over the result
+        rest_files = [f.name for f in skel.files if any(d[0] == "type" and any(t.rhs == "iface_rest" for t in d[1])
+                                                        for d in f.decls)]
+        if with_rest and rest_files:
+            f = rng.choice(rest_files)
+            out = f[:-3] + ".shootrest.go"
+            for cmd2, args2, plan in [("new", ["-type=*"], "match"), ("new", ["-file=" + out] + rng.choice([[], ["-sep"]]), None),
+                                      ("map", ["-path=../dest", "-file=" + out], None)][:rng.choice([1, 2, 3])]:
+                p = copy.deepcopy(skel)
+                if plan:
+                    apply_generate_plan(rng, p, cmd2, args2, plan, None)
+                cases.append(Case(p, cmd2, args2, None, "preout", pre=["rest", "-file=" + f]))
     return cases
 
 
@@ -235,8 +253,17 @@ def run_case(shoot, k, timeout=60):
     base = k.dir
     if base.exists():
         shutil.rmtree(base)
+    if k.pkg0 is not None:
+        k.pkg = copy.deepcopy(k.pkg0)
     files = cligen.render_go(k.pkg)
     l2.write_files(base, files)
+    if k.pre:
+        k.pkg0 = copy.deepcopy(k.pkg)
+        b0 = l2.snapshot(base)
+        l2.run_shoot(shoot, base / "p", k.pre, timeout=timeout)
+        new = sorted(n for n in l2.snapshot(base) if n not in b0)
+        k.pre_files = new
+        add_generated_files(k, base, new)
     before = l2.snapshot(base)
     cwd = base if k.from_parent else base / "p"
     r = l2.run_shoot(shoot, cwd, k.argv(), timeout=timeout)
@@ -264,6 +291,39 @@ def run_case(shoot, k, timeout=60):
                               "created_elsewhere": [n for n in created if n not in inpkg]},
              "stderr": err[-1500:], "timed_out": r["timed_out"], "panicked": r["panicked"], "files": {}}
     return k
+
+
+GOSIG = [None]
+
+
+def add_generated_files(k, base, new):
+    """the files a pre-step wrote become files of the skeleton (their type specs read back with gosig -decls)"""
+    paths = [str(base / n) for n in new if n.startswith("p/") and "/" not in n[2:] and not n[2:].startswith((".", "_"))]
+    if not paths:
+        return
+    rc, out, err = lib.sh([str(GOSIG[0]), "-decls"], input="\n".join(paths) + "\n", timeout=120)
+    if rc != 0:
+        raise lib.CheckBroken("gosig -decls failed: " + err[-1000:])
+    per = {}
+    for line in out.splitlines():
+        f = line.split("\t")
+        per.setdefault(f[0], []).append(f[1:])
+    for pth in paths:
+        gf = cligen.File(Path(pth).name)
+        for ent in per.get(pth, []):
+            if ent[0] == "TYPE":
+                name, kind, alias, tps = ent[1], ent[2], ent[3] == "1", [x for x in ent[4].split(",") if x] if len(ent) > 4 else []
+                if kind != "struct":
+                    raise lib.CheckBroken("pre-step output declares a non-struct type (not supported by the skeleton reader): %s" % ent)
+                gf.decls.append(("type", [cligen.TS(name, "generated_struct", name + " struct{}", alias=alias, rhs="struct",
+                                                    tparams=tps)], None, False))
+            elif ent[0] == "LOCAL":
+                gf.decls.append(("func", "gen", [cligen.TS(ent[1], "generated_local", ent[1] + " struct{}",
+                                                           rhs="struct" if ent[2] == "struct" else "named")]))
+            elif ent[0] == "PARSE_ERROR":
+                raise lib.CheckBroken("pre-step output does not parse: %s" % ent)
+        k.pkg.files.append(gf)
+    k.pkg.files.sort(key=lambda f: f.name)
 
 
 def sig_files(gosig, cases):
@@ -300,6 +360,7 @@ def sig_files(gosig, cases):
 
 
 def execute(run, shoot, gosig, cases, tag="c", par=PAR, timeout=60):
+    GOSIG[0] = gosig
     root = l2.make_module(run, "vmod_" + tag)
     for i, k in enumerate(cases):
         k.dir = root / ("%s%05d" % (tag, i))
